@@ -431,6 +431,13 @@ func (w *accWorld) finishBody(conns map[string]*accConn, cs *accConn, kind strin
 			}
 		}
 		return nil, fmt.Errorf("replayed finish without a legitimate exchange")
+	case "crossname":
+		// one paired controller posing as another: the name of the pairing added through /pairings (stored or not),
+		// signed with the legitimate controller's key over this exchange's material
+		if !cs.legit {
+			return nil, fmt.Errorf("crossname finish on a key-less connection")
+		}
+		return ref.WrapV3(key, sign(w.legit.Priv, "added-by-"+cs.name, cs.cur.Eph.Pub[:], cs.cur.AccPub)).Encode(), nil
 	case "unknown":
 		return ref.WrapV3(key, sign(cs.id.Priv, "nobody-"+cs.name, cs.cur.Eph.Pub[:], cs.cur.AccPub)).Encode(), nil
 	case "self":
